@@ -217,6 +217,41 @@ def confined(c1: str, c2: str, single: bool) -> bool:
     return ok
 
 
+SEPS = ["/", "/../", "/../../", "/./", "\\", "..", "//", "/..", ""]
+K0 = sl("k0")
+K1 = sl("k1")
+PL = sl("pl", [2, 2, 2])  # maximal piece lengths
+
+
+def confined_structured(s0: str, s1: str, s2: str, k0: int, k1: int) -> bool:
+    """
+    Longer ids with structure: id = s0 + SEP[k0] + s1 + SEP[k1] + s2 with arbitrary short pieces (len<=2) and separators from
+    {'/', '/../', '/../../', '/./', backslash, '..', '//', '/..', ''} - reaches traversal shapes such as 'a/../../rootX' that plain
+    symbolic strings of length <= 6 cannot.
+    pre: len(s0) <= PL[0] and len(s1) <= PL[1] and len(s2) <= PL[2] and 0 <= k0 <= 8 and 0 <= k1 <= 8
+    pre: K0 is None or k0 == K0
+    pre: K1 is None or k1 == K1
+    post: _
+    """
+    global LAST_INFO
+    _reset(False, ROOT)
+    a = _pick(SEPS, k0)
+    b = _pick(SEPS, k1)
+    cid = s0 + a + s1 + b + s2
+    err = None
+    try:
+        api._get_rails([cid])
+    except ValueError:
+        err = "ValueError"
+    ok = True
+    for p in Recorder.loaded:
+        if not _inside(p, ROOT):
+            ok = False
+    if not tracing():
+        LAST_INFO = {"id": cid, "root": ROOT, "loaded": list(Recorder.loaded), "error": err}
+    return ok
+
+
 def confined_twin(c1: str, c2: str, single: bool) -> bool:
     """
     Twin: claims nothing is ever loaded from a proper sub-directory.
@@ -407,6 +442,11 @@ SPEC = {
                                             {"slice": {"root": 0, "n": 9}, "args": {"c1": "../x", "c2": "", "single": False}}]},
         {"fn": "confined", "tiers": ("thorough",), "slices": [{"root": r, "n": 6, "ids": 1, "len": ln, "single": sg} for r in range(3) for ln in range(7) for sg in (0,)] + [{"root": r, "n": 4, "ids": 2, "len": ln, "single": 0} for r in range(3) for ln in range(5)],
          "tcond": 1500, "tpath": 10, "bound": "1 id len<=6; 2 ids len<=4 each"},
+        {"fn": "confined_structured", "tiers": ("quick",), "slices": [{"root": 2, "k0": 2, "k1": 8, "pl": [1, 0, 2]}, {"root": 0, "k0": 2, "k1": 8, "pl": [1, 0, 2]}, {"root": 2, "k0": 1, "k1": 8, "pl": [1, 0, 2]}],
+         "tcond": 600, "tpath": 10, "bound": "id = piece+sep+piece+sep+piece for the traversal shapes x/../../yy and x/../yy, pieces len<=1/2, roots /r and /srv/root",
+         "smoke": [{"slice": {"root": 2}, "args": {"s0": "a", "s1": "", "s2": "r2", "k0": 2, "k1": 8}}]},
+        {"fn": "confined_structured", "tiers": ("thorough",), "slices": [{"root": 2, "k0": k, "k1": k1, "pl": [1, 1, 2]} for k in range(9) for k1 in range(9)], "tcond": 2000, "tpath": 10,
+         "bound": "root /r; all 81 separator pairs; pieces len<=1/1/2"},
         {"fn": "confined_twin", "expect": "counterexample", "slices": [{"root": 0, "n": 4}], "tcond": 120, "tpath": 10, "bound": "twin"},
         {"fn": "fixed_reply", "slices": [{"root": 0}, {"root": 1}], "tcond": 300, "tpath": 10, "bound": "15-entry hostile id pool x single-config mode on/off, through chat_completion",
          "smoke": [{"slice": {"root": 0}, "args": {"k": 0, "single": False}}]},
